@@ -557,6 +557,19 @@ theorem C15_marker_need (name : Option Str)
         simp only []
         rw [markerLoop_stop (Or.inr ⟨k, r, rfl, hk, h3, h4⟩)]; rfl
 
+/-- … in particular at every position of a conjunction: when the need is followed by `and <next need> …`, both
+orders of its clauses — with a named frame or with the nameless `in frame` directly before `and` — give the same
+need and leave exactly `and <next need> …` for the conjunction loop of `go` / `let` / `aux … if` -/
+theorem C15_marker_need_in_conjunction (name : Option Str)
+    (hname : ∀ n, name = some n → isReserved n = false ∧ identPub n = true)
+    (m : Str) (more : List Str) (s : MarkerCfg) :
+    markerLoop ((str "in" :: str "frame" :: name.toList) ++ (str "by" :: m :: str "and" :: more)) s =
+      .ok ({ frame := name.getD (str "me"), marker := stripQuotes m }, str "and" :: more) ∧
+    markerLoop ((str "by" :: m :: (str "in" :: str "frame" :: name.toList)) ++ (str "and" :: more)) s =
+      .ok ({ frame := name.getD (str "me"), marker := stripQuotes m }, str "and" :: more) :=
+  C15_marker_need name hname m (str "and" :: more)
+    (Or.inr ⟨str "and", more, rfl, by decide, by decide, by decide⟩) s
+
 example : markerLoop [str "by", str "\"m 1\"", str "in", str "frame", str "and", str "x"] {} =
     .ok ({ frame := str "me", marker := str "m 1" }, [str "and", str "x"]) := by decide +kernel
 
